@@ -76,10 +76,10 @@ Section RACE.
 
   Lemma pa1 : forall s, exists k, pa s P1 = Do (CRead (filep s)) k /\
       k (FErr ENOENT) = pa s P2 /\
-      forall c v, c_json c = Some v -> calc_id frepr v = jid s -> k (FOk (RData c)) = pa s PD.
+      forall c v, c_json c = Some v -> (is_jnull v = false /\ calc_id frepr v = jid s) -> k (FOk (RData c)) = pa s PD.
   Proof.
     intro s. eexists. split; [reflexivity|]. split; [reflexivity|].
-    intros c v Hj Hv. cbn. rewrite Hj, Hv, str_eqb_refl. reflexivity.
+    intros c v Hj [Hn Hv]. cbn. rewrite Hj, Hn, Hv, str_eqb_refl. reflexivity.
   Qed.
 
   Lemma pa2 : forall s, exists k, pa s P2 = Do (CStat (dirp s)) k /\
@@ -129,10 +129,10 @@ Section RACE.
   Qed.
 
   Lemma pa10 : forall s, exists k, pa s P10 = Do (CRead (filep s)) k /\
-      forall c v, c_json c = Some v -> calc_id frepr v = jid s -> k (FOk (RData c)) = pa s PD.
+      forall c v, c_json c = Some v -> (is_jnull v = false /\ calc_id frepr v = jid s) -> k (FOk (RData c)) = pa s PD.
   Proof.
     intro s. eexists. split; [reflexivity|].
-    intros c v Hj Hv. cbn. rewrite Hj, Hv, str_eqb_refl. reflexivity.
+    intros c v Hj [Hn Hv]. cbn. rewrite Hj, Hn, Hv, str_eqb_refl. reflexivity.
   Qed.
 
   (* ---- path facts *)
@@ -183,9 +183,10 @@ Section RACE.
   Hypothesis Hws0 : get f0 ws = Some Dir.
   Hypothesis Htags : NoDup (map r_tag specs).
   Hypothesis Hsame : forall s t, In s specs -> In t specs -> jid s = jid t -> r_sp s = r_sp t.
+  Hypothesis Hspnn : forall s, In s specs -> is_jnull (r_sp s) = false.
 
   Definition validf (f : fs) (s : rspec) : Prop :=
-    exists c v, get f (filep s) = Some (File c) /\ c_json c = Some v /\ calc_id frepr v = jid s.
+    exists c v, get f (filep s) = Some (File c) /\ c_json c = Some v /\ (is_jnull v = false /\ calc_id frepr v = jid s).
 
   Definition pre_ok (s : rspec) : Prop :=
     (get f0 (dirp s) = None \/ get f0 (dirp s) = Some Dir) /\
@@ -285,7 +286,7 @@ Section RACE.
 
   Lemma validf_same_file : forall f s t, filep t = filep s -> validf f s -> validf f t.
   Proof.
-    intros f s t E [c [v [Hg [Hj Hv]]]]. exists c, v. rewrite E. split; auto. split; auto.
+    intros f s t E [c [v [Hg [Hj [Hn Hv]]]]]. exists c, v. rewrite E. split; auto. split; auto. split; auto.
     destruct (filep_inj t s E) as [_ Ej]. congruence.
   Qed.
 
@@ -348,7 +349,8 @@ Section RACE.
   Proof.
     intros s p f c k Hs HG HL Hpa. unfold step_goal.
     destruct (G_same s f HG Hs) as [q2 [[q3a q3b] [q4 q5]]].
-    destruct (Hpre s Hs) as [pd [pf [pt0 pfd]]].
+    destruct (Hpre s Hs) as [pd [pf [pt0 pfd]]]. pose proof (Hspnn s Hs) as Hnn.
+    assert (Hjcv : is_jnull (r_sp s) = false /\ calc_id frepr (r_sp s) = jid s) by (split; [exact Hnn|reflexivity]).
     destruct p; cbn [L] in HL.
     - (* P0 *) rewrite pa0 in Hpa. injection Hpa as <- <-.
       rewrite exec_res_stat, (G_ws f HG). cbn [fst snd kind_of is_dir_r]. same_state P1 HG.
@@ -357,7 +359,7 @@ Section RACE.
       + destruct (q3b pf) as [Hn|Hj].
         * rewrite (exec_read_none f _ Hn). cbn [fst snd]. rewrite Hk1. same_state P2 HG.
         * rewrite (exec_read_file f _ _ Hj). cbn [fst snd].
-          rewrite (Hk2 (jc s) (r_sp s) eq_refl eq_refl). same_state PD HG.
+          rewrite (Hk2 (jc s) (r_sp s) eq_refl Hjcv). same_state PD HG.
           exists (jc s), (r_sp s). auto.
       + pose proof pf as [c0 [v [Hg [Hj Hv]]]]. rewrite <- (q3a pf) in Hg.
         rewrite (exec_read_file f _ _ Hg). cbn [fst snd]. rewrite (Hk2 c0 v Hj Hv). same_state PD HG.
